@@ -141,6 +141,8 @@ pub struct CountingAlloc;
 pub static ALLOC_IN_HANDLER: AtomicU64 = AtomicU64::new(0);
 pub static FREE_IN_HANDLER: AtomicU64 = AtomicU64::new(0);
 pub static ALLOC_TOTAL: AtomicU64 = AtomicU64::new(0);
+/// Bytes currently allocated through the global allocator (for leak checks over a sequence of calls).
+pub static LIVE_BYTES: std::sync::atomic::AtomicI64 = std::sync::atomic::AtomicI64::new(0);
 /// When set, heap operations made at dispatch depth > 0 are counted.
 pub static ALLOC_WATCH: AtomicBool = AtomicBool::new(false);
 // Set by a thread that deliberately allocates inside a handler-like context (never by library code).
@@ -160,24 +162,28 @@ unsafe impl GlobalAlloc for CountingAlloc {
         if in_handler() {
             ALLOC_IN_HANDLER.fetch_add(1, Ordering::Relaxed);
         }
+        LIVE_BYTES.fetch_add(l.size() as i64, Ordering::Relaxed);
         System.alloc(l)
     }
     unsafe fn dealloc(&self, p: *mut u8, l: Layout) {
         if in_handler() {
             FREE_IN_HANDLER.fetch_add(1, Ordering::Relaxed);
         }
+        LIVE_BYTES.fetch_sub(l.size() as i64, Ordering::Relaxed);
         System.dealloc(p, l)
     }
     unsafe fn alloc_zeroed(&self, l: Layout) -> *mut u8 {
         if in_handler() {
             ALLOC_IN_HANDLER.fetch_add(1, Ordering::Relaxed);
         }
+        LIVE_BYTES.fetch_add(l.size() as i64, Ordering::Relaxed);
         System.alloc_zeroed(l)
     }
     unsafe fn realloc(&self, p: *mut u8, l: Layout, n: usize) -> *mut u8 {
         if in_handler() {
             ALLOC_IN_HANDLER.fetch_add(1, Ordering::Relaxed);
         }
+        LIVE_BYTES.fetch_add(n as i64 - l.size() as i64, Ordering::Relaxed);
         System.realloc(p, l, n)
     }
 }
